@@ -23,17 +23,22 @@ LEVEL_NOTE = ("Trusted: Coq kernel, Go harness + Python glue. Modelled, not veri
               "(MemoryStorage.Update under its mutex; NBS manifest update under the file lock: C02), root-hash equality is equality of dataset maps "
               "(address injectivity), Go scheduler. doDelete can abort with ErrMergeNeeded when the head moves between two of its own attempts: "
               "stated in the spec (consistent, third disjunct). A failed call may be answered from a stale cached root when the client's view was "
-              "not rebased (second disjunct quantifies over prefixes of the order).")
+              "not rebased (second disjunct quantifies over prefixes of the order). SQL-level histories observe branch and tag heads only "
+              "(not working-set hashes); a failed SQL statement is required to have no effect but its error is not matched against the guard.")
 THEOREMS = ["update_linearizable", "no_lost_update", "cond_update_respects_check", "ordinary_moves_forward", "forced_are_writes",
-            "cond_update_respects_check_nbs_lockhash_refuted"]
+            "cond_update_respects_check_nbs_lockhash_refuted", "oracle_model_obs"]
 REFUTED = ["cond_update_respects_check_nbs_lockhash_refuted"]
 RULE = ("histories of 4-12 API calls by 2-3 handles (commit / forced commit / fast-forward / set-head / delete with and without working-set check / "
         "working-set update / commit+working-set / tag) on 2 branches, 2 working sets, 1 tag, interleaved with rebase and handle refresh; concurrent "
-        "batches of 2-4 calls; non-trivial = at least one call took effect; distinct by content")
+        "batches of 2-4 calls; plus SQL-level histories: 2-4 sessions of one engine issuing dolt_commit / dolt_branch -f / dolt_reset --hard / "
+        "dolt_branch -D / dolt_branch <new> <start> / dolt_checkout -b / dolt_tag on main, b1, b2, sequentially (some sessions inside an open "
+        "transaction) or from goroutines; the successful statements with the commits they installed (parents from dolt_commit_ancestors) must "
+        "linearize to the final dolt_branches / dolt_tags heads; non-trivial = at least one call took effect; distinct by content")
 ASSUMPTIONS = ["each client handle is used by one goroutine at a time", "no GC / table-file conjoin during the histories",
                "NBS-backed concurrent batches do not contain two byte-identical calls: on an NBS store both report success (finding "
                "'nbs-manifest-lock:identical-concurrent-update-both-succeed'; the witness is replayed on every run once it is listed in known_findings.json)"]
-REQUIRED_TAGS = ["seq", "conc", "ok", "merge", "lock", "retry-path", "stale-fail", "delete-ok", "dirty", "conc-contended", "nbs", "commitws-ok", "ff-ok", "forced"]
+REQUIRED_TAGS = ["seq", "conc", "ok", "merge", "lock", "retry-path", "stale-fail", "delete-ok", "dirty", "conc-contended", "nbs", "commitws-ok", "ff-ok", "forced",
+                 "sql-seq", "sql-conc", "sql-commit-ok", "sql-branchf-ok", "sql-reset-ok", "sql-delete-ok", "sql-create-ok", "sql-tag-ok", "sql-fail", "sql-stale-session"]
 
 BRANCHES = [10, 11]
 WSNAMES = [20, 21]
@@ -156,6 +161,8 @@ def _opkey(a):
 
 
 def has_identical_calls(case):
+    if case.get("sql"):
+        return False
     ks = [_opkey(a) for a in case["acts"] if a["k"] not in ("rebase", "get")]
     return len(set(ks)) < len(ks)
 
@@ -183,6 +190,44 @@ def gen_nbs_case(rng, conc, gen=None):
             return c
 
 
+SQL_BRANCHES = [10, 11, 12]
+
+
+def gen_sql_case(rng, conc):
+    n = rng.randint(2, 4) if conc else rng.randint(2, 3)
+
+    def op(s):
+        k = rng.random()
+        if k < 0.35:
+            return {"k": "commit", "s": s}
+        if k < 0.50:
+            return {"k": "branchf", "s": s, "name": rng.choice([10, 11]), "target": rng.randint(1, 3)}
+        if k < 0.62:
+            return {"k": "reset", "s": s, "target": rng.randint(1, 3)}
+        if k < 0.72:
+            return {"k": "delete", "s": s, "name": rng.choice([11, 12])}
+        if k < 0.84:
+            return {"k": "create", "s": s, "name": rng.choice([11, 12]), "target": rng.randint(1, 3)}
+        if k < 0.92:
+            return {"k": "checkoutb", "s": s, "name": 12, "target": rng.randint(1, 3)}
+        return {"k": "tag", "s": s, "name": 31, "target": rng.randint(1, 3)}
+
+    acts = []
+    if conc:
+        acts = [op(s) for s in range(n)]
+    else:
+        for _ in range(rng.randint(5, 10)):
+            s = rng.randrange(n)
+            k = rng.random()
+            if k < 0.15:
+                acts.append({"k": "begin", "s": s})
+            elif k < 0.22:
+                acts.append({"k": rng.choice(["txcommit", "rollback"]), "s": s})
+            else:
+                acts.append(op(s))
+    return {"sql": True, "conc": conc, "nsessions": n, "acts": acts, "store": "sql"}
+
+
 def gen_cases(rng, tier):
     nseq, nconc, nnbs = (260, 110, 14) if tier == "quick" else (6000, 3000, 300)
     cases = []
@@ -192,6 +237,9 @@ def gen_cases(rng, tier):
         cases.append(gen_case(rng, True, "mem"))
     for i in range(nnbs):
         cases.append(gen_nbs_case(rng, i % 2 == 1))
+    nsql = 24 if tier == "quick" else 600
+    for i in range(nsql):
+        cases.append(gen_sql_case(rng, i % 2 == 1))
     if known_open(ID):
         cases.append(WITNESS)
     return cases
@@ -249,7 +297,63 @@ def coq_input(case, obs):
         coq_world(case, obs), coq_refs(case["m0"]), cq_bool(case["conc"]), cq_list(acts))
 
 
+SQL_MODEL_KINDS = ("commit", "branchf", "reset", "delete", "create", "checkoutb", "tag")
+
+
+def coq_case_sql(case, out):
+    """SQL-level history: only the calls that succeeded are operations of the history (a failed statement must
+    have no effect: the final heads must be explained by the successful ones); every statement starts from the
+    current root (ARebase before each call)."""
+    o = out.get("obs")
+    if o is None or out.get("err") or out.get("panic"):
+        return "({| i_world := {| w_parents := []; w_root := []; w_ws := [] |}; i_m0 := []; i_conc := true; i_acts := [] |}, {| o_results := [ROther]; o_final := [(0, 0)] |})"
+    cms = [{"id": 1, "parents": []}, {"id": 2, "parents": [1]}, {"id": 3, "parents": [2]}] + list(o.get("extra") or [])
+    par = cq_list("(%d, %s)" % (c["id"], cq_list(str(p) for p in c["parents"])) for c in cms)
+    acts = []
+    for x in o["ops"]:
+        if not x["ok"] or x["k"] not in SQL_MODEL_KINDS:
+            continue
+        k = x["k"]
+        if k == "commit":
+            t = "(OCommit %d %d %d false)" % (x["name"], x["exp"], x["new"])
+        elif k in ("branchf", "reset"):
+            t = "(OSetHead %d %d)" % (x["name"], x["new"])
+        elif k == "delete":
+            t = "(ODelete %d 0)" % x["name"]
+        else:
+            t = "(OTag %d %d)" % (x["name"], x["new"])
+        if not case["conc"]:
+            acts.append("ARebase %d" % x["s"])
+        acts.append("AOp %d %s" % (x["s"], t))
+    nops = sum(1 for a in acts if a.startswith("AOp"))
+    inp = "{| i_world := {| w_parents := %s; w_root := []; w_ws := [] |}; i_m0 := %s; i_conc := %s; i_acts := %s |}" % (
+        par, coq_refs(o["m0"]), cq_bool(case["conc"]), cq_list(acts))
+    return "(%s, {| o_results := %s; o_final := %s |})" % (inp, cq_list(["ROk"] * nops), coq_refs(o["final"]))
+
+
+def classify_sql(case, out):
+    o = out.get("obs")
+    if o is None or out.get("err") or out.get("panic"):
+        return ["harness-error"]
+    t = ["sql-conc" if case["conc"] else "sql-seq"]
+    began = set()
+    for x in o["ops"]:
+        if x["k"] == "begin":
+            began.add(x["s"])
+        elif x["k"] in ("txcommit", "rollback"):
+            began.discard(x["s"])
+        elif x["ok"]:
+            t.append("sql-%s-ok" % x["k"])
+            if x["s"] in began:
+                t.append("sql-stale-session")
+        else:
+            t.append("sql-fail")
+    return sorted(set(t))
+
+
 def coq_case(case, out):
+    if case.get("sql"):
+        return coq_case_sql(case, out)
     o = out.get("obs")
     if o is None or out.get("err") or out.get("panic"):
         # harness error / panic: an observation no model agrees with and no oracle accepts
@@ -259,6 +363,8 @@ def coq_case(case, out):
 
 
 def classify(case, out):
+    if case.get("sql"):
+        return classify_sql(case, out)
     o = out.get("obs")
     if o is None or out.get("err") or out.get("panic"):
         return ["harness-error"]
@@ -302,6 +408,8 @@ def classify(case, out):
 
 def nontrivial(case, out):
     o = out.get("obs")
+    if case.get("sql"):
+        return bool(o) and any(x["ok"] and x["k"] in SQL_MODEL_KINDS for x in o["ops"])
     return bool(o) and any(x["res"] == "ok" for x in o["ops"])
 
 
@@ -315,6 +423,8 @@ def shrink_candidates(case):
 
 
 def neighbours(case, rng):
+    if case.get("sql"):
+        return [gen_sql_case(rng, case["conc"]) for _ in range(10)]
     out = []
     for _ in range(40):
         c = dict(case)
